@@ -488,6 +488,55 @@ func (g *gen) program() string {
 	}
 }
 
+// compile-mode inputs for C08: random bytes, token soup, and random edits of valid programs
+var soupTokens = []string{"a", "$x", "$", "$$", "1", "1.5", "1e3", "\"s\"", "'s'", "`n`", "/r/", "/r/i", "(", ")", "[", "]", "{", "}", ".", "..", ",", ";", ":", ":=",
+	"?", "+", "-", "*", "**", "/", "%", "|", "=", "!=", "<", "<=", ">", ">=", "~>", "^", "&", "and", "or", "in", "true", "false", "null", "function", "λ", "!", "~", "@", "#", "é", "\\", "\"", "'", "`", " ", "\n", "<n:n>", "<a<s>>"}
+
+func (g *gen) compileInput() []byte {
+	switch g.r.Intn(6) {
+	case 0: // random bytes
+		n := g.r.Intn(24)
+		b := make([]byte, n)
+		for i := range b {
+			b[i] = byte(g.r.Intn(256))
+		}
+		return b
+	case 1, 2: // token soup
+		n := 1 + g.r.Intn(7)
+		var sb strings.Builder
+		for i := 0; i < n; i++ {
+			sb.WriteString(soupTokens[g.r.Intn(len(soupTokens))])
+			if g.chance(0.3) {
+				sb.WriteByte(' ')
+			}
+		}
+		return []byte(sb.String())
+	default: // one to three random edits of a valid generated program
+		saved := g.prof
+		g.prof = []string{"mix", "paths", "preds", "ops", "calls", "blocks", "sort", "group", "transform"}[g.r.Intn(9)]
+		b := []byte(g.program())
+		g.prof = saved
+		alphabet := []byte("\"'\\u0d89.e-+/`<>()[]{}!~$?:,|; a\n")
+		for k := 1 + g.r.Intn(3); k > 0 && len(b) > 0; k-- {
+			i := g.r.Intn(len(b))
+			c := alphabet[g.r.Intn(len(alphabet))]
+			switch g.r.Intn(5) {
+			case 0:
+				b = append(b[:i:i], b[i+1:]...)
+			case 1:
+				b = append(b[:i:i], append([]byte{c}, b[i:]...)...)
+			case 2:
+				b[i] = c
+			case 3:
+				b = append(b[:i:i], append([]byte{b[i]}, b[i:]...)...)
+			default:
+				b = b[:i]
+			}
+		}
+		return b
+	}
+}
+
 func genMain(args []string) {
 	fs := flag.NewFlagSet("gen", flag.ExitOnError)
 	prof := fs.String("profile", "mix", "generator profile")
@@ -512,6 +561,12 @@ func genMain(args []string) {
 		g.vars = []string{"v", "w"}
 	}
 	for i := 0; i < *n; i++ {
+		if *prof == "compile" {
+			b, _ := json.Marshal(M{"id": *start + i, "fam": *fam, "mode": "compile", "bytes": bytesJSON(g.compileInput())})
+			w.Write(b)
+			w.WriteByte('\n')
+			continue
+		}
 		var d interface{}
 		switch {
 		case *prof == "transform" && g.chance(0.6):
